@@ -271,3 +271,130 @@ Proof.
   intros c H. assert (Hw : wf_case c = true) by (unfold agree in H; apply andb_true_iff in H; tauto).
   destruct (wf_case_spec c Hw) as [H1 H2]. apply agree_P_b; assumption.
 Qed.
+
+(* ------------------------------------------------------------------------------------------- *)
+(* P_b means the property: from the boolean to the proposition over the nodes *)
+
+Section PbSound.
+  Variables (st : strategy) (pr : params) (ps : list prov).
+  Notation ok := (filter (fun tv : N * value => spec_valid st pr (v_raw (snd tv))) (answers pr ps)).
+
+  Lemma soft_rule_sound : forall ot,
+    (if existsb (fun tv : N * value => fst tv <? p_timeout pr / 2) ok then ot <=? p_timeout pr / 2 else true) = true ->
+    forall p1 v1, In p1 ps -> gives_ok st pr p1 v1 -> pv_time p1 < p_timeout pr / 2 -> ot <= p_timeout pr / 2.
+  Proof.
+    intros ot H p1 v1 Hp1 Hg1 Hlt.
+    assert (E : existsb (fun tv : N * value => fst tv <? p_timeout pr / 2) ok = true).
+    { apply existsb_exists. exists (pv_time p1, v1). split; [apply in_ok; exists p1; auto | cbn; lia]. }
+    rewrite E in H. lia.
+  Qed.
+
+  Lemma none_before_sound : forall T,
+    forallb (fun tv : N * value => negb (fst tv <? T)) ok = true ->
+    forall p1 v1, In p1 ps -> gives_ok st pr p1 v1 -> T <= pv_time p1.
+  Proof.
+    intros T H p1 v1 Hp1 Hg1. rewrite forallb_forall in H.
+    assert (Hin : In (pv_time p1, v1) ok) by (apply in_ok; exists p1; auto).
+    apply H in Hin. cbn in Hin. lia.
+  Qed.
+
+  Lemma none_before_all_sound : forall T,
+    forallb (fun tv : N * value => negb (fst tv <? T)) (answers pr ps) = true ->
+    forall p1 v1, In p1 ps -> gives pr p1 v1 -> T <= pv_time p1.
+  Proof.
+    intros T H p1 v1 Hp1 Hg1. rewrite forallb_forall in H.
+    assert (Hin : In (pv_time p1, v1) (answers pr ps)) by (apply in_answers; exists p1; auto).
+    apply H in Hin. cbn in Hin. lia.
+  Qed.
+End PbSound.
+
+Theorem P_b_sound : forall c, ids_ok (c_provs c) -> P_b c = true -> P c.
+Proof.
+  intros [cid st pr ps [res ot calls]] Hids H. cbn [c_provs] in Hids.
+  unfold P_b in H. cbn [c_strat c_params c_provs c_obs o_res o_time o_calls] in H. cbv zeta in H.
+  apply andb_true_iff in H as [H Hm]. apply andb_true_iff in H as [HT Hc].
+  unfold P. cbn [c_strat c_params c_provs c_obs o_res o_time o_calls]. cbv zeta.
+  split; [lia|]. split; [apply (list_eqb_spec N.eqb N.eqb_eq); exact Hc|]. clear HT Hc.
+  destruct (template_of st) eqn:Et.
+  - (* best *)
+    destruct res as [id| | | |]; try discriminate Hm.
+    + apply andb_true_iff in Hm as [Hm Hsoft]. split; [|apply soft_rule_sound; exact Hsoft].
+      apply existsb_exists in Hm as [[t0 v] [Hin Hm]]. cbn [fst snd] in Hm.
+      apply andb_true_iff in Hm as [Hm Hall]. apply andb_true_iff in Hm as [Hid Ht].
+      apply in_ok in Hin as [p0 (Hp0 & Hg & ->)]. apply N.eqb_eq in Hid.
+      exists p0, v. split; [exact Hp0|]. split; [exact Hg|]. split; [exact Hid|]. split; [lia|].
+      intros p1 v1 Hp1 Hg1 Hlt. rewrite forallb_forall in Hall.
+      assert (Hin1 : In (pv_time p1, v1) (filter (fun tv : N * value => spec_valid st pr (v_raw (snd tv))) (answers pr ps)))
+        by (apply in_ok; exists p1; auto).
+      apply Hall in Hin1. cbn [fst snd] in Hin1. replace (pv_time p1 <? ot) with true in Hin1 by lia.
+      cbn [negb orb] in Hin1. apply negb_true_iff in Hin1. exact Hin1.
+    + apply none_before_sound. exact Hm.
+  - (* attestation data majority *)
+    destruct res as [id| | | |]; try discriminate Hm.
+    + apply andb_true_iff in Hm as [Hm _]. apply andb_true_iff in Hm as [Hm Hall]. apply andb_true_iff in Hm as [H1 Hthr].
+      split; [|discriminate].
+      pose proof (cnt_le_Z st pr ps id ot) as Cn. cbv beta in Cn.
+      assert (Hpos : (0 < cnt st pr ps (fun x => (x <=? ot)%N) id)%Z) by lia.
+      destruct (cnt_pos_witness st pr ps _ _ Hpos) as [p0 [v (Hp0 & Hg & Hid & Ht)]].
+      exists p0, v. split; [exact Hp0|]. split; [exact Hg|]. split; [exact Hid|]. split; [lia|].
+      split; [lia|]. split; [unfold maj_thr; rewrite Et; lia|].
+      intros p1 v1 Hp1 Hg1. rewrite forallb_forall in Hall.
+      assert (Hin1 : In (pv_time p1, v1) (filter (fun tv : N * value => spec_valid st pr (v_raw (snd tv))) (answers pr ps)))
+        by (apply in_ok; exists p1; auto).
+      apply Hall in Hin1. cbn [snd] in Hin1. apply andb_true_iff in Hin1 as [A1 A2].
+      pose proof (cnt_lt_Z st pr ps (v_id v1) ot) as Cl. cbv beta in Cl.
+      split; [lia|]. intro Eq.
+      match type of A2 with (if ?b then _ else _) = true => replace b with true in A2 by lia end.
+      rewrite (slot_of_id_ok st pr ps p1 v1 Hids Hp1 Hg1) in A2. subst id.
+      rewrite (slot_of_id_ok st pr ps p0 v Hids Hp0 Hg) in A2. lia.
+    + intros p1 v1 Hp1 Hg1. rewrite forallb_forall in Hm.
+      assert (Hin1 : In (pv_time p1, v1) (filter (fun tv : N * value => spec_valid st pr (v_raw (snd tv))) (answers pr ps)))
+        by (apply in_ok; exists p1; auto).
+      apply Hm in Hin1. cbn [snd] in Hin1.
+      pose proof (cnt_lt_Z st pr ps (v_id v1) (p_timeout pr)) as Cl. cbv beta in Cl.
+      unfold maj_thr. rewrite Et. lia.
+  - (* block root majority *)
+    destruct res as [id| | | |]; try discriminate Hm.
+    + apply andb_true_iff in Hm as [Hm Hsoft]. apply andb_true_iff in Hm as [Hm Hall]. apply andb_true_iff in Hm as [H1 Hthr].
+      split; [|intros _; apply soft_rule_sound; exact Hsoft].
+      pose proof (cnt_le_Z st pr ps id ot) as Cn. cbv beta in Cn.
+      assert (Hpos : (0 < cnt st pr ps (fun x => (x <=? ot)%N) id)%Z) by lia.
+      destruct (cnt_pos_witness st pr ps _ _ Hpos) as [p0 [v (Hp0 & Hg & Hid & Ht)]].
+      exists p0, v. split; [exact Hp0|]. split; [exact Hg|]. split; [exact Hid|]. split; [lia|].
+      split; [lia|]. split; [unfold maj_thr; rewrite Et; lia|].
+      intros p1 v1 Hp1 Hg1. rewrite forallb_forall in Hall.
+      assert (Hin1 : In (pv_time p1, v1) (filter (fun tv : N * value => spec_valid st pr (v_raw (snd tv))) (answers pr ps)))
+        by (apply in_ok; exists p1; auto).
+      apply Hall in Hin1. cbn [snd] in Hin1. apply andb_true_iff in Hin1 as [A1 A2].
+      pose proof (cnt_lt_Z st pr ps (v_id v1) ot) as Cl. cbv beta in Cl.
+      split; [lia|]. intro Eq.
+      match type of A2 with (if ?b then _ else _) = true => replace b with true in A2 by lia end.
+      rewrite (slot_of_id_ok st pr ps p1 v1 Hids Hp1 Hg1) in A2. subst id.
+      rewrite (slot_of_id_ok st pr ps p0 v Hids Hp0 Hg) in A2. lia.
+    + intros p1 v1 Hp1 Hg1. rewrite forallb_forall in Hm.
+      assert (Hin1 : In (pv_time p1, v1) (filter (fun tv : N * value => spec_valid st pr (v_raw (snd tv))) (answers pr ps)))
+        by (apply in_ok; exists p1; auto).
+      apply Hm in Hin1. cbn [snd] in Hin1.
+      pose proof (cnt_lt_Z st pr ps (v_id v1) (p_timeout pr)) as Cl. cbv beta in Cl.
+      unfold maj_thr. rewrite Et. lia.
+  - (* first *)
+    destruct res as [id| | | |]; try discriminate Hm.
+    + apply andb_true_iff in Hm as [Hm Hall]. split; [|apply none_before_all_sound; exact Hall].
+      apply existsb_exists in Hm as [[t0 v] [Hin Hm]]. cbn [fst snd] in Hm.
+      apply andb_true_iff in Hm as [Hm Ht]. apply andb_true_iff in Hm as [Hid Hn].
+      apply in_answers in Hin as [p0 (Hp0 & Hg & ->)]. apply N.eqb_eq in Hid, Ht. apply negb_true_iff in Hn.
+      exists p0, v. auto.
+    + apply andb_true_iff in Hm as [Hm Hall]. split; [|apply none_before_all_sound; exact Hall].
+      apply existsb_exists in Hm as [[t0 v] [Hin Hm]]. cbn [fst snd] in Hm.
+      apply andb_true_iff in Hm as [Hn Ht].
+      apply in_answers in Hin as [p0 (Hp0 & Hg & ->)]. apply N.eqb_eq in Ht.
+      exists p0, v. auto.
+    + apply none_before_all_sound. exact Hm.
+Qed.
+
+(* hence: whatever the model can do satisfies the property, stated over the nodes *)
+Theorem agree_implies_P : forall c, agree c = true -> P c.
+Proof.
+  intros c H. apply P_b_sound; [|apply agree_implies_P_b; exact H].
+  unfold agree in H. apply andb_true_iff in H as [Hw _]. apply (wf_case_spec c Hw).
+Qed.
